@@ -26,6 +26,12 @@ def run(ctx):
         'perimeter (side 5 onto side 0) is the rest of the hexagon perimeter, '
         'not a function of one of the two sides: no absolute side index is '
         'singled out (rule shared with C09.R5)']
+    ctx.decided += [
+        'R5 loops over the rows of an adjacency table select exchange '
+        'partners by what the neighbour is (its type, padding), never by '
+        'the distance between cell numbers: a numbering has a seam (last '
+        'cell of a ring next to the first), so an index-distance filter cuts '
+        'the ring at one fixed position']
     ctx.not_decided += ['equivariance of the computed fields (a relation '
                         'between runs)', 'correctness of the run-time maps']
     r1(ctx)
@@ -36,6 +42,8 @@ def run(ctx):
     from . import c09
     c09.r5(ctx.alias({'C09.R5': 'C07.R4'}))
     ctx.min_instances('C07.R4', 6)
+    r5(ctx)
+    ctx.min_instances('C07.R5', 1)
     ctx.min_instances('C07.R1', 14)
     ctx.min_instances('C07.R2', 3)
 
@@ -263,3 +271,73 @@ def r2(ctx):
     ctx.require(len(h) == 1, 'C07.R2', ci, h[0][0] if h else ci.node,
                 'swirl term must be (T[donor of cell] - T[cell]) for the same '
                 'cell index', key=ci.full + ' | swirl difference')
+
+
+def r5(ctx):
+    """Adjacency-row loops: partner filters must not be index-distance
+    tests."""
+    from .. import util as U
+    from ..core import parent
+    n = 0
+    for m in ctx.repo.modules.values():
+        for fi in m.funcs.values():
+            for loop in [x for x in ast.walk(fi.node)
+                         if isinstance(x, ast.For) and isinstance(
+                             x.target, ast.Name) and 'sc_adj[' in src(x.iter)
+                         and 'range' not in src(x.iter)]:
+                nb = loop.target.id
+                # enclosing loop variables = cell indices
+                cells = set()
+                p = parent(loop)
+                while p is not None and p is not fi.node:
+                    if isinstance(p, ast.For):
+                        cells |= {x.id for x in ast.walk(p.target)
+                                  if isinstance(x, ast.Name)}
+                    p = parent(p)
+                cells |= {x.id for x in ast.walk(loop.iter)
+                          if isinstance(x, ast.Name)} - {'self'}
+                tests = [t for t in ast.walk(loop) if isinstance(t, ast.If)]
+                bad = None
+                for t in tests:
+                    e = U.value_at(fi.node, t.test, t.lineno,
+                                   keep=tuple(cells | {nb}))
+                    for b in ast.walk(e):
+                        if isinstance(b, ast.BinOp) and isinstance(
+                                b.op, (ast.Sub, ast.Add)):
+                            ln = {x.id for x in ast.walk(b.left)
+                                  if isinstance(x, ast.Name)}
+                            rn = {x.id for x in ast.walk(b.right)
+                                  if isinstance(x, ast.Name)}
+                            # type look-ups are fine: strip names that only
+                            # occur as an index of `.type[...]`
+                            if (nb in ln | rn) and ((ln | rn) - {nb}) & (
+                                    cells - {'start'} | {'sci'}) and not \
+                                    _only_in_type_lookup(b, nb):
+                                bad = t
+                n += 1
+                ctx.require(bad is None, 'C07.R5', fi, bad or loop,
+                            'exchange partners of an adjacency row are '
+                            'filtered by the distance between cell numbers; '
+                            'the wrap-around link of a ring (last cell next '
+                            'to the first) is then cut at one fixed corner '
+                            'and rotated inputs no longer give rotated '
+                            'results', key='%s | partner filter' % fi.full)
+    if n == 0:
+        raise AnalysisError('no adjacency-row loop found')
+
+
+def _only_in_type_lookup(b, nb):
+    from ..core import parent
+    for x in ast.walk(b):
+        if isinstance(x, ast.Name) and x.id == nb:
+            p = parent(x)
+            ok = False
+            while p is not None and p is not b:
+                if isinstance(p, ast.Subscript) and src(p.value).endswith(
+                        '.type'):
+                    ok = True
+                    break
+                p = parent(p)
+            if not ok:
+                return False
+    return True
